@@ -40,10 +40,20 @@
   `C12_ip_4in6_unparseable`, `C13_leaf_outside_range_rejected`).  NOTE these restrictions bite only where the literal is
   a VALUE node (programmatic ASTs); a parsed policy has constructor calls `ip("…")`, not values.
 
+  `C09_json_pattern_components_meaning` / `C09_json_pattern_decode_meaning`: the `"pattern"` array of a `like` node
+  — ANY list of `{"Literal": s}` and `"Wildcard"` items, empty literals in leading / middle / trailing position and
+  repeated wildcards included — decodes (`Pattern.UnmarshalJSON` → `types.NewPattern`) to a pattern in the matcher's
+  normal form that matches exactly the strings the list denotes (the literals in order, every wildcard standing for
+  any text; `C09P.compElems` interpreted by the specification's backtracking matcher).  Full strength since
+  `fix: NewPattern keeps a wildcard which follows a leading empty literal`: before, `[{"Literal":""},"Wildcard",
+  {"Literal":"a"}]` decoded to the pattern `a` — a policy with a different meaning than the document and than the
+  Cedar text `like "*a"` (regression examples below the theorems).
+
   NOT PROVED HERE (direct oracle only, harness/cmd/vh/c09.go): agreement with the TEXT codec (needs the parser /
   printer models of C07 / C08).
 -/
 import CedarGoProofs.Lemmas.C09Leaves
+import CedarGoProofs.Lemmas.C09Pattern
 namespace CedarGo
 open JsonModel
 
@@ -171,6 +181,52 @@ example : ({ c09Example with conditions := [(true, .binop .eq (.lit (.decimal 15
     ("b", .lit (.set [.datetime 0, .duration minI64, .ip ⟨true, 1, 64⟩])), ("c", .var .context), ("d", .lit (.ip ⟨true, 1, 128⟩))]))] } : Policy).JsonRenderableInRange ∧
     ({ c09Example with conditions := [(true, .binop .eq (.lit (.decimal 15000)) (.record [("a", .lit (.ip ⟨false, 1, 32⟩)),
     ("b", .lit (.set [.datetime 0, .duration minI64, .ip ⟨true, 1, 64⟩])), ("c", .var .context), ("d", .lit (.ip ⟨true, 1, 128⟩))]))] } : Policy).JsonSemNormalInRange := by
+  decide +kernel
+
+/-! ### the `"pattern"` array of a `like` node -/
+
+/-- **What the components mean is what the built pattern matches**: for EVERY component list `cs` (`some s` = the
+    literal `{"Literal": s}` / a string argument of `types.NewPattern`, `none` = `"Wildcard"` / `Wildcard{}`; empty
+    literals and repeated wildcards anywhere) the pattern `NewPattern` builds is in the normal form on which the greedy
+    matcher is exact (`WFPattern`, the hypothesis of `C01_patternMatch_spec`), and `Pattern.Match` (`matchComps`) accepts
+    exactly the byte strings that the element sequence of the list — its literals' bytes in order, a star per wildcard
+    — accepts under the specification's backtracking matcher. -/
+theorem C09_json_pattern_components_meaning (cs : List (Option String)) :
+    WFPattern (newPattern cs) ∧
+    ∀ s : List UInt8, matchComps (newPattern cs) s = Spec.wildcardMatchElems (C09P.compElems cs) s :=
+  C09P.newPattern_meaning cs
+
+/-- the same through `Pattern.UnmarshalJSON`: whenever a JSON array is accepted as a pattern, its items are
+    `"Wildcard"` / `{"Literal": s}` components and the decoded pattern matches what they mean -/
+theorem C09_json_pattern_decode_meaning (xs : List J) (p : Pattern) (h : patternOfJ xs = .ok p) :
+    ∃ cs, mapMR patElem xs = .ok cs ∧ WFPattern p ∧
+      ∀ s : List UInt8, matchComps p s = Spec.wildcardMatchElems (C09P.compElems cs) s := by
+  unfold patternOfJ at h
+  split at h
+  · cases h
+  · split at h
+    · cases h
+    · rename_i cs hcs
+      cases h
+      exact ⟨cs, hcs, C09P.newPattern_meaning cs⟩
+
+example : (match patternOfJ [.obj [("Literal", .str "a")], .str "Wildcard"] with
+    | .ok p => decide (p = [⟨false, [97]⟩, ⟨true, []⟩]) | .error _ => false) = true := by decide +kernel
+
+/-- regression (the defect `like-json-wildcard-after-empty-literal`): a wildcard after a LEADING empty literal is kept —
+    `[{"Literal":""},"Wildcard",{"Literal":"a"}]` is the pattern `*a`, identical to what the Cedar text `"*a"` parses
+    to, and matches `xa` (it used to decode to the pattern `a`, which does not) -/
+example : (match patternOfJ [.obj [("Literal", .str "")], .str "Wildcard", .obj [("Literal", .str "a")]] with
+      | .ok p => decide (p = [⟨true, [97]⟩]) | .error _ => false) = true ∧
+    matchComps [⟨true, [97]⟩] [120, 97] = true ∧ matchComps [⟨false, [97]⟩] [120, 97] = false := by decide +kernel
+
+/-- ... the same inside a policy document -/
+example : isCondP (fromJ (condDoc (.obj [("like", .obj [("left", .obj [("Value", .str "xa")]),
+      ("pattern", .arr [.obj [("Literal", .str "")], .str "Wildcard", .obj [("Literal", .str "a")]])])])))
+    (fun e => match e with | .like (.lit (.str "xa")) [⟨true, [97]⟩] => true | _ => false) = true := by decide +kernel
+
+/-- empty literals in middle and trailing position and repeated wildcards change nothing: `a`,`*`,``,`*`,`*`,`b`,`` is `a*b` -/
+example : newPattern [some "a", none, some "", none, none, some "b", some ""] = [⟨false, [97]⟩, ⟨true, [98]⟩] := by
   decide +kernel
 
 /-! ### where the full statement fails -/
